@@ -34,6 +34,8 @@ class CThread:
     def enabled(self) -> bool:
         if self.state == 'done':
             return False
+        if getattr(self, 'killed', False):
+            return True               # scheduled once more, only to be unwound
         p = self.pending[2]
         return p is None or bool(p())
 
@@ -164,7 +166,7 @@ class Sched:
 
         def body():
             t.sem.acquire()
-            if self.aborting:
+            if self.aborting or getattr(t, 'killed', False):
                 t.state = 'done'
                 self._maybe_finish()
                 return
@@ -252,6 +254,8 @@ class Sched:
             me.sem.acquire()
             if self.aborting:
                 raise Abort()
+        if getattr(me, 'killed', False):
+            raise Abort()
         me.state = 'running'
         me.npoints += 1
         ex = self.inject.pop((me.name, me.npoints), None)
@@ -285,6 +289,12 @@ class Sched:
         if self.verdict is None:
             self.verdict = 'all-done'
         return self.verdict
+
+    def kill(self, t: CThread) -> None:
+        """The process ends under a daemon thread: it never runs again (it is
+        scheduled once more only to be unwound)."""
+        if t.state != 'done':
+            t.killed = True
 
     def next_seq(self) -> int:
         self.seq += 1
@@ -626,6 +636,39 @@ class World:
             sched.inject[(tgt.name, tgt.npoints + 1)] = KeyboardInterrupt()
         self._set(_thread, 'interrupt_main', interrupt_main)
         self._set(_signal, 'raise_signal', lambda *a, **k: interrupt_main())
+        # primitives that exist already (created when the module was imported:
+        # class attributes, module globals - one per process, shared by every
+        # Server object) are put under the scheduler for the session as well
+        import queue as _queue
+        import threading as _threading
+
+        def controlled(v, label):
+            if isinstance(v, _queue.Queue):
+                return CQueue(sched, label)
+            if isinstance(v, _threading.Event):
+                return CEvent(sched, label)
+            if isinstance(v, _threading.Barrier):
+                return CBarrier(sched, v.parties)
+            return None
+
+        def adopt(owner):
+            for name, v in list(vars(owner).items()):
+                if name.startswith('__'):
+                    continue
+                lab = f'shared.{getattr(owner, "__name__", "obj")}.{name}'
+                c = controlled(v, lab)
+                if c is not None:
+                    self._set(owner, name, c)
+                elif isinstance(v, dict) and v and any(controlled(x, '') is not None for x in v.values()):
+                    self._set(owner, name, {k_: (controlled(x, f'{lab}.{getattr(k_, "name", k_)}') or x)
+                                            for k_, x in v.items()})
+                elif isinstance(v, list) and v and any(controlled(x, '') is not None for x in v):
+                    self._set(owner, name, [controlled(x, f'{lab}.{j}') or x for j, x in enumerate(v)])
+        for mod in (smod, cmod, imod):
+            adopt(mod)
+            for v in list(vars(mod).values()):
+                if isinstance(v, type) and v.__module__ == mod.__name__:
+                    adopt(v)
         PT = smod.PlayerThread
 
         def start(pt):
